@@ -480,28 +480,27 @@ def make_case(body):
     return {"body": body, "src": text, "sx": sx, "depth": depth}
 
 
-def cond_nesting(s):
-    """Nesting depth of if/else statements in a skeleton."""
+def count_else(s):
+    """Number of if/else statements in a skeleton."""
     k = s[0]
     if k in 'LRN':
         return 0
     if k == 'B':
-        return max([cond_nesting(c) for c in s[1:]] + [0])
-    if k == 'W':
-        return cond_nesting(s[1])
-    if k == 'I':
-        return cond_nesting(s[1])
+        return sum(count_else(c) for c in s[1:])
+    if k in 'WI':
+        return count_else(s[1])
     if k == 'E':
-        return 1 + max(cond_nesting(s[1]), cond_nesting(s[2]))
-    return cond_nesting(s[2])
+        return 1 + count_else(s[1]) + count_else(s[2])
+    return count_else(s[2])
 
 
-# `Cfg::into_ssa` needs memory exponential in the nesting depth of if/else
-# (4 GB at depth 6, > 60 GB at depth 8: reported to the coordinator, outside
-# C12/C13): the SSA comparison is made only up to this conditional nesting,
-# and the harness runs under an address-space limit.
-SSA_MAX_COND_NESTING = 3
-AS_LIMIT = 6 * 1024 ** 3
+# `Cfg::into_ssa` used to need memory exponential in the number of if/else
+# statements (4 GB for 6 nested ones, > 60 GB for 8; found here, repaired by
+# /repo commit 7224234).  As a fail-safe the harness still runs under an
+# address-space limit, and programs with very many if/else statements are
+# compared before SSA only.
+SSA_MAX_ELSE = 40
+AS_LIMIT = 4 * 1024 ** 3
 
 
 def harness_cmd(common, mode_args):
@@ -519,8 +518,8 @@ def run_cfg(common, cases, chunk=200000):
     out = []
     for a in range(0, len(cases), chunk):
         part = cases[a:a + chunk]
-        with_ssa = [i for i, c in enumerate(part) if cond_nesting(c["body"]) <= SSA_MAX_COND_NESTING]
-        without = [i for i, c in enumerate(part) if cond_nesting(c["body"]) > SSA_MAX_COND_NESTING]
+        with_ssa = [i for i, c in enumerate(part) if count_else(c["body"]) <= SSA_MAX_ELSE]
+        without = [i for i, c in enumerate(part) if count_else(c["body"]) > SSA_MAX_ELSE]
         impl = [None] * len(part)
         for idx, mode in ((with_ssa, "cfg"), (without, "cfg-nossa")):
             if idx:
